@@ -130,13 +130,25 @@ class QueryPlanner:
         #   main purpose: make tests working (don't change planner outputs)
         # can be removed in future (with adapting the tests) except 'cut integration part' block
 
+        # what a first part can name instead of the integration: table aliases and CTE names of the query
+        local_names = set()
+
+        def _find_local_names(node, is_table, **kwargs):
+            if is_table and getattr(node, 'alias', None) is not None:
+                local_names.add(str(node.alias.parts[-1]).lower())
+            if getattr(node, 'cte', None):
+                local_names.update(str(cte.name.parts[-1]).lower() for cte in node.cte)
+
+        query_traversal(query, _find_local_names)
+
         def _prepare_integration_select(node, is_table, is_target, parent_query, **kwargs):
             if not isinstance(node, Identifier):
                 return
 
-            # cut integration part
+            # cut integration part; `int1.x` is a column of the table aliased (or the CTE called) int1
             if len(node.parts) > 1 and node.parts[0].lower() == database:
-                node.parts.pop(0)
+                if is_table or len(node.parts) > 2 or database not in local_names:
+                    node.parts.pop(0)
 
             if not hasattr(parent_query, 'from_table'):
                 return
